@@ -105,6 +105,28 @@ def merge(results):
     return out
 
 
+def shrink_doc(check_name, case, sig, detail, budget_s=20):
+    """Best effort: a smaller document showing the same mechanisms (None if not applicable)."""
+    if not isinstance(detail, dict) or not isinstance(detail.get("doc"), str) or len(detail["doc"]) < 12:
+        return None
+    wd = _work_dir(check_name + "-shrink")
+    try:
+        ip, op = os.path.join(wd, "in.json"), os.path.join(wd, "out.json")
+        with open(ip, "w", encoding="utf-8") as f:
+            json.dump({"doc": detail["doc"], "signature": sig, "case": case if str(case).startswith("Z") else None, "work": os.path.join(wd, "w"), "budget_s": budget_s}, f)
+        os.makedirs(os.path.join(wd, "w"), exist_ok=True)
+        try:
+            subprocess.run([env.PY, "-m", "vf.shrink", check_name, ip, op], cwd=env.VERIF, env=env.child_env(), stdin=subprocess.DEVNULL,
+                           stdout=subprocess.DEVNULL, stderr=subprocess.DEVNULL, timeout=budget_s + 30)
+        except subprocess.TimeoutExpired:
+            return None
+        if os.path.exists(op):
+            return json.load(open(op, encoding="utf-8")).get("shrunk")
+        return None
+    finally:
+        shutil.rmtree(wd, ignore_errors=True)
+
+
 def write_replay(prop, case, sig, detail):
     d = os.path.join(os.environ.get("VERIF_SCRATCH_OUT") or env.VERIF, "replays", prop)
     os.makedirs(d, exist_ok=True)
@@ -287,6 +309,11 @@ def main(check_name, tier, replay=None):
                 continue
             seen_sig.add(sig)
             if shown < 25:
+                if shown < 4 and getattr(mod, "SHRINKABLE", False):
+                    sd = shrink_doc(check_name, case, sig, detail)
+                    if sd is not None and isinstance(detail, dict):
+                        detail = dict(detail)
+                        detail["shrunk_doc"] = sd
                 p = write_replay(prop, case, sig, detail)
                 print(f"VIOLATION property={prop} replay={p}  [{cls}] case={case} signature={sig}")
                 shown += 1
